@@ -287,6 +287,8 @@ func (vm *Vm) runCatch(ctx context.Context, b []byte) ([]byte, error) {
 		}
 		logg.InfoCtxf(ctx, "catch!", "flag", sig, "sym", sym, "target", actualSym, "mode", mode)
 		sym = actualSym
+		// like every other move: what was mapped and laid out for the node that is left does not follow
+		vm.Reset()
 		bh, err := vm.rs.GetCode(ctx, sym)
 		if err != nil {
 			return b, err
